@@ -60,6 +60,15 @@ def mkIterOf (s : St) (rev : Bool) (lo hi : String) : Option (Option (Iter Int))
   | some l, some h => some (if rev then rangeReverse s.cmp s.t l h else range s.cmp s.t l h)
   | _, _ => none
 
+/-- drain an iterator (`Model.BTree.drain`), noticing a `Next` that panics (`iterNextPanics`); `none` = panic -/
+def drainP (cmp : Int → Int → Int) (t : Tree Int Int) : Nat → Iter Int → Option (List (Int × Option Int))
+  | 0, _ => some []
+  | fuel + 1, it =>
+    if iterNextPanics t it then none else
+    match iterNext cmp t it with
+    | (_, none) => some []
+    | (it', some kv) => (drainP cmp t fuel it').map (kv :: ·)
+
 def step (s : St) (toks : List String) : St × String :=
   match toks with
   | "new" :: kind :: ctor :: ck :: d :: _ =>
@@ -90,8 +99,9 @@ def step (s : St) (toks : List String) : St × String :=
       | none => (s, "bad-op")
       | some none => (s, "panic")
       | some (some it) =>
-        let l := drain s.cmp s.t (s.t.size.toNat + 2) it
-        (s, if l.isEmpty then "-" else joinWith "," (l.map (showKV s.isSet)))
+        match drainP s.cmp s.t (s.t.size.toNat + 2) it with
+        | none => (s, "panic")
+        | some l => (s, if l.isEmpty then "-" else joinWith "," (l.map (showKV s.isSet)))
     else (s, "bad-op")
   | ["iter", j, dir, lo, hi] =>
     let j := natOr j 99
@@ -104,6 +114,7 @@ def step (s : St) (toks : List String) : St × String :=
     let j := natOr j 99
     match s.its[j]? with
     | some (some it) =>
+      if iterNextPanics s.t it then (s, "panic") else
       let r := iterNext s.cmp s.t it
       ({ s with its := s.its.set! j (some r.1) },
         match r.2 with
